@@ -252,6 +252,17 @@ def runStream (ops : BufOps β) (cfg : Cfg) (host t0host : Bytes) (strm : Nat) (
   let fl := flushOutput ops cfg host t0host strm dr.2.2.1.buf dr.2.2.2.1
   { buf := fl.1, rc := dr.2.2.2.1, ems := dr.2.2.2.2 ++ fl.2 }
 
+/-- A stream the worker GIVES UP ON (command timeout, xpoll error: `result = DSH_FAILED;
+    rcmd_signal (SIGTERM); break` in `_rsh_thread`): after the arrivals of `script`, each followed
+    by one handler call, the poll loop is left -- no further read, whatever the descriptor still
+    holds stays unread -- and `_flush_output` runs on what the buffer holds. -/
+def runAbandoned (ops : BufOps β) (cfg : Cfg) (host t0host : Bytes) (strm : Nat) (readRc : Bool)
+    (b0 : β) (script : List Bytes) : Run β :=
+  let st := script.foldl (feedStep ops cfg host strm readRc)
+    ({ buf := b0, pipe := [], weof := false, closed := false }, 0, [])
+  let fl := flushOutput ops cfg host t0host strm st.1.buf st.2.1
+  { buf := fl.1, rc := st.2.1, ems := st.2.2 ++ fl.2 }
+
 /-! ### instance 1: the index-level model of cbuf.c -/
 
 def indexOps : BufOps Cbuf.Cbuf where
